@@ -33,7 +33,8 @@ def build_list(case):
     layout = {}
     for e in case['ens']:
         for r in range(case['nrep'][e]):
-            layout['%s|r%d' % (e, r + 1)] = list(gen_idl(rng, rng.randint(8, 16), rng.choice(['contig', 'strided', 'irregular'])))
+            # 'bare': a single chain that is called exactly like its ensemble
+            layout[e if case.get('bare') == e else '%s|r%d' % (e, r + 1)] = list(gen_idl(rng, rng.randint(8, 16), rng.choice(['contig', 'strided', 'irregular'])))
     obs = []
     cov = None
     if case.get('cov'):
@@ -44,7 +45,7 @@ def build_list(case):
     for i in range(case['n']):
         o = None
         for e in case['ens']:
-            names = [n for n in layout if n.startswith(e + '|')]
+            names = [n for n in layout if n.startswith(e + '|') or n == e]
             if case['subsets'] and len(names) > 1 and rng.random() < 0.5:
                 names = sorted(rng.sample(names, rng.randint(1, len(names))))
             if case['subsets'] and len(case['ens']) > 1 and i > 0 and rng.random() < 0.3:
@@ -73,7 +74,7 @@ def build_list(case):
             o = b if o is None else o + b
         if o is None:
             e = case['ens'][0]
-            n0 = [n for n in layout if n.startswith(e + '|')][0]
+            n0 = [n for n in layout if n.startswith(e + '|') or n == e][0]
             o = pe.Obs([gen_data(rng, nprng, len(layout[n0]), 'white') + 1.3], [n0], idl=[layout[n0]])
         if cov:
             if case.get('cancel') and len(cov) >= 3:
@@ -378,6 +379,8 @@ def check_case(ctx, case):
                         kw['separator_insertion'] = 'r'
                     elif si == 'none':
                         kw['separator_insertion'] = None
+                    elif si == 'false':
+                        kw['separator_insertion'] = False
                     # the documented optional arguments are descriptive metadata: the numbers must not depend on them
                     wkw = {}
                     meta = case.get('meta')
@@ -389,7 +392,8 @@ def check_case(ctx, case):
                         kw['full_output'] = True
                     if case['via'] == 'string':
                         s = dio.create_dobs_string(obs, 'nm', **wkw)
-                        got = dio.import_dobs_string(s.encode(), **kw)
+                        # the documented argument is the str that create_dobs_string returns; bytes work as well
+                        got = dio.import_dobs_string(s if case.get('str_arg') else s.encode(), **kw)
                     else:
                         dio.write_dobs(obs, os.path.join(d, 'f'), 'nm', gz=case['gz'], **wkw)
                         got = dio.read_dobs(os.path.join(d, 'f'), gz=case['gz'], **kw)
@@ -419,7 +423,8 @@ def check_case(ctx, case):
                         # documented: the separator goes after the ensemble tag written to the file, if that tag is a
                         # prefix of the stored name (with an alternative enstag it usually is not)
                         tag = (wkw.get('enstags') or {}).get(n.split('|')[0], n.split('|')[0])
-                        return (stored[:len(tag)] + '|' + stored[len(tag):]) if stored.startswith(tag) else stored
+                        # (a chain called exactly like its ensemble has nothing after the tag and keeps its name)
+                        return (stored[:len(tag)] + '|' + stored[len(tag):]) if stored.startswith(tag) and len(stored) > len(tag) else stored
                     if si == 'int':
                         k = kw['separator_insertion']
                         return stored[:k] + '|' + stored[k:]
@@ -497,8 +502,12 @@ def gen_case(ctx):
     ens = rng.sample(rng.choice([['A', 'B'], ['A', 'B'], ['ens', 'Ab'], ['Bq', 'A']]), rng.choice([1, 1, 2])) if fmt == 'dobs' else ['A']
     case = {'fmt': fmt, 'seed': rng.getrandbits(28), 'ens': sorted(ens), 'nrep': {e: rng.choice([1, 2, 3]) for e in ens}, 'n': rng.randint(1, 4),
             'subsets': fmt == 'dobs' and rng.random() < 0.6, 'data': rng.choice(['real', 'real', 'count']), 'gz': rng.random() < 0.5,
-            'via': rng.choice(['string', 'file']), 'sep': rng.choice(['true', 'true', 'int', 'str', 'none']), 'sep_k': rng.choice([1, 1, 2, 3]), 'analyse': rng.random() < 0.3}
+            'via': rng.choice(['string', 'file']), 'sep': rng.choice(['true', 'true', 'true', 'int', 'str', 'none', 'false']), 'sep_k': rng.choice([1, 1, 2, 3]), 'analyse': rng.random() < 0.3}
     if fmt == 'dobs':
+        case['str_arg'] = rng.random() < 0.4
+        one = [e for e in ens if case['nrep'][e] == 1]
+        if one and rng.random() < 0.25:
+            case['bare'] = rng.choice(sorted(one))
         case['cov'] = rng.choice([None, None, 1, 2, 3])
         case['cancel'] = rng.random() < 0.5
         case['mean_hit'] = case['data'] == 'count' and rng.random() < 0.15
